@@ -341,6 +341,13 @@ func genC16(r *Rand, fam string, thor bool) c16Case {
 				k.H = ny + r.Intn(20)
 			}
 			k.TW, k.TH = (k.W+nx-1)/nx, (k.H+ny-1)/ny
+			// strip tiling: only one tile dimension given, the other defaults to the image size
+			switch r.Intn(6) {
+			case 0:
+				k.TW = 0
+			case 1:
+				k.TH = 0
+			}
 		case "j2k-layered":
 			k.Layers = r.Range(2, 6)
 		case "j2k-prog":
@@ -548,7 +555,7 @@ func c16Check(c *Ctx, k c16Case, stream []byte) [][2]string {
 
 func runC16(c *Ctx) {
 	c.R.Rule = "C16: every encoder (18 families: baseline, extended 8/12, lossless pred 0..7, SV1, JPEG-LS, JPEG-LS near, " +
-		"JPEG 2000 reversible/irreversible/tiled<=64/layered/5 progressions/precincts, HTJ2K .201/.202/.203 and tiled through EncodeParams, RLE) on " +
+		"JPEG 2000 reversible/irreversible/tiled<=64 incl. strip tiling (one tile dimension 0)/layered/5 progressions/precincts, HTJ2K .201/.202/.203 and tiled through EncodeParams, RLE) on " +
 		"noise-heavy images (60% noise/extremes), widths/heights 1..300, 256..513 and (thorough) 65535x1, 1x65535; " +
 		"non-trivial = the encoder returned a stream of >= 20 bytes that reached the walker; distinct by full argument tuple"
 	if !c.HasModel() {
